@@ -42,15 +42,15 @@ def with_hydrogens_text(name):
 _CACHE = {}
 
 
-def baseline(name, keep, extra_args=()):
-    key = (name, keep, tuple(extra_args))
+def baseline(name, keep, extra_args=(), params=None):
+    key = (name, keep, tuple(extra_args), bool(params))
     if key not in _CACHE:
         if keep:
             txt = with_hydrogens_text(name)
-            _CACHE[key] = (txt, M.run(txt, args=['--keep-protons']))
+            _CACHE[key] = (txt, M.run(txt, args=['--keep-protons'], params=params))
         else:
             txt = M.text(name)
-            _CACHE[key] = (txt, M.run(txt, args=list(extra_args)))
+            _CACHE[key] = (txt, M.run(txt, args=list(extra_args), params=params))
     return _CACHE[key]
 
 
@@ -59,9 +59,9 @@ def _centre(name):
     return [round(sum(c[i] for c in xs) / len(xs), 3) for i in range(3)]
 
 
-def mk_translate(name, axis, lo, hi, keep, rotation=None, extra_args=()):
+def mk_translate(name, axis, lo, hi, keep, rotation=None, extra_args=(), params=None):
     def body(ctx):
-        txt, base = baseline(name, keep, extra_args)
+        txt, base = baseline(name, keep, extra_args, params)
         k = ctx.int('shift_thousandths', int(round(lo * 1000)), int(round(hi * 1000)))
         t = k / 1000.0 if ctx.native else k / 1000
 
@@ -73,7 +73,7 @@ def mk_translate(name, axis, lo, hi, keep, rotation=None, extra_args=()):
             for ax in axis:
                 v[ax] = v[ax] + t
             a.x, a.y, a.z = v
-        other = M.run(txt, args=(['--keep-protons'] if keep else []) + list(extra_args), transform=tr)
+        other = M.run(txt, args=(['--keep-protons'] if keep else []) + list(extra_args), transform=tr, params=params)
         M.compare_heavy(ctx, 'pose', base, other)
         if keep:
             M.compare_results(ctx, 'pose(keep-protons)', base, other)
@@ -231,6 +231,14 @@ def obligations(tier):
                                       claim_doc='bonds, groups, num_volume, buried, energy_volume identical; pKa and determinants identical (keep-protons) / '
                                                 'within %.2f (built hydrogens, positions within rounding of the shifted ones)' % TOL,
                                       max_paths=5000, wall_s=170 if tier == 'quick' else 1200, query_timeout_ms=20000))
+    # burial switched on (Nmin/Nmax 6/30): Coulomb, iterative and coupling paths active
+    for name in (['pair_ASP_ARG'] if tier == 'quick' else ['pair_ASP_ARG', 'pair_GLU_ARG_TYR', 'pair_ASP_ASP', 'pair_LYS_ASP', 'pep8']):
+        for ax, axn in axes[:3]:
+            for keep in (False, True):
+                obs.append(Obligation('O1-translation[%s,%s,%s,buried]' % (name, axn, 'keep-protons' if keep else 'built-hydrogens'),
+                                      mk_translate(name, ax, 0.0, 2.509, keep, params=M.BURIED), code=code_pipe,
+                                      bounds='%s with Nmin/Nmax lowered to 6/30 shifted by t = k/1000 along %s, t in [0,2.509]' % (name, axn),
+                                      claim_doc='as O1-translation', max_paths=5000, wall_s=170 if tier == 'quick' else 1200))
     # all hydrogens (incl. sp3 carbons) under --protonate-all: their set must be pose independent as well
     for name in (['tri_ASP'] if tier == 'quick' else ['tri_ASP', 'tri_HIS', 'tri_LYS', 'lig_KNI']):
         for ax, axn in axes[:3]:
